@@ -78,7 +78,7 @@ def evaluate(spec):
     for k in range(0, n + 1):
         keys = None
         if per_conn_dsb is not None:
-            keys = {"file": False, "dsb": [ln for first, ln in per_conn_dsb if first < k], "dsb_pos": "first"}
+            keys = {"file": False, "dsb": [ln for first, ln in per_conn_dsb if first < k], "dsb_pos": [first for first, ln in per_conn_dsb if first < k]}
         o = oracle.run_e2e(b, wd, pkts=b.pkts[:k], keys=keys, name="cut")
         evals += 1
         f = oracle.base_failure(o)
